@@ -154,8 +154,23 @@ static void dump(void) {
     fclose(f);
 }
 
-static volatile int hb_stop = 0;
-static void *hb_main(void *a) { (void)a; int k = 0; while (!hb_stop) { usleep(100000); if (++k % 10 == 0) { fprintf(stderr, "VFHB %d %llu\n", vf_rank, (unsigned long long)nrecs); fflush(stderr); } } return NULL; }
+/* Heartbeat: "VFHB <rank> <phase> <records> [tick]".  phase 0: MPI/parsec initialisation, 1: context not started yet,
+ * 2: context started (only here a constant line means "no progress"), 3: wait returned (dump / finalisation; ticks for a
+ * bounded time).  The tick keeps the line changing while the process is legitimately busy outside the monitored region. */
+static volatile int hb_stop = 0, vf_phase = 0;
+static void *hb_main(void *a) {
+    (void)a; int k = 0, t3 = 0;
+    while (!hb_stop) {
+        usleep(100000);
+        if (++k % 10 == 0) {
+            int ph = vf_phase;
+            if (ph == 2 || (ph == 3 && ++t3 > 90)) fprintf(stderr, "VFHB %d %d %llu\n", vf_rank, ph, (unsigned long long)nrecs);
+            else fprintf(stderr, "VFHB %d %d %llu %d\n", vf_rank, ph, (unsigned long long)nrecs, k);
+            fflush(stderr);
+        }
+    }
+    return NULL;
+}
 
 static const char *arg(int argc, char **argv, const char *name, const char *def) {
     for (int i = 1; i + 1 < argc; i++) { if (!strcmp(argv[i], "--")) break; if (!strcmp(argv[i], name)) return argv[i + 1]; }
@@ -164,6 +179,8 @@ static const char *arg(int argc, char **argv, const char *name, const char *def)
 
 int main(int argc, char **argv) {
     int prov;
+    { const char *er = getenv("OMPI_COMM_WORLD_RANK"); if (er) vf_rank = atoi(er); }
+    pthread_t hb; pthread_create(&hb, NULL, hb_main, NULL);
     MPI_Init_thread(&argc, &argv, MPI_THREAD_SERIALIZED, &prov);
     MPI_Comm_size(MPI_COMM_WORLD, &vf_world); MPI_Comm_rank(MPI_COMM_WORLD, &vf_rank);
     int cores = atoi(arg(argc, argv, "--cores", "2"));
@@ -185,7 +202,6 @@ int main(int argc, char **argv) {
     itab = calloc(ITAB, sizeof(*itab));
     for (int k = 0; k < vf_nk; k++) vf_e1_write(&store[(size_t)k * vf_ts], 5000 + k);
 
-    pthread_t hb; pthread_create(&hb, NULL, hb_main, NULL);
     int pargc = 0; char **pargv = NULL;
     for (int i = 1; i < argc; i++) if (!strcmp(argv[i], "--")) { pargc = argc - i; pargv = argv + i; break; }
     parsec_context_t *ctx = parsec_init(cores, &pargc, &pargv);
@@ -198,22 +214,24 @@ int main(int argc, char **argv) {
     D.rank_of = c_rank_of; D.rank_of_key = c_rank_of_key; D.vpid_of = c_vpid_of; D.vpid_of_key = c_vpid_of_key;
     D.data_key = c_data_key; D.data_of = c_data_of; D.data_of_key = c_data_of_key;
 
+    vf_phase = 1;
     int ntp = vf_prog_count();
     parsec_taskpool_t *tps[64];
     if (ntp > 64) ntp = 64;
     if (!strcmp(scenario, "together")) {
         for (int i = 0; i < ntp; i++) { tps[i] = vf_prog_new(i, &D); parsec_taskpool_set_complete_callback(tps[i], on_complete, (void *)(intptr_t)i); parsec_context_add_taskpool(ctx, tps[i]); }
-        parsec_context_start(ctx); parsec_context_wait(ctx); vf_e1_mark(1, -1, 0);
+        vf_phase = 2; parsec_context_start(ctx); parsec_context_wait(ctx); vf_e1_mark(1, -1, 0); vf_phase = 3;
     } else if (!strcmp(scenario, "seq")) {
         for (int i = 0; i < ntp; i++) {
             tps[i] = vf_prog_new(i, &D); parsec_taskpool_set_complete_callback(tps[i], on_complete, (void *)(intptr_t)i);
-            parsec_context_add_taskpool(ctx, tps[i]); parsec_context_start(ctx); parsec_context_wait(ctx); vf_e1_mark(1, i, 0);
+            parsec_context_add_taskpool(ctx, tps[i]); vf_phase = 2; parsec_context_start(ctx); parsec_context_wait(ctx); vf_e1_mark(1, i, 0); vf_phase = 1;
         }
     } else if (!strcmp(scenario, "startfirst")) {
-        parsec_context_start(ctx);
+        vf_phase = 2; parsec_context_start(ctx);
         for (int i = 0; i < ntp; i++) { tps[i] = vf_prog_new(i, &D); parsec_taskpool_set_complete_callback(tps[i], on_complete, (void *)(intptr_t)i); parsec_context_add_taskpool(ctx, tps[i]); }
-        parsec_context_wait(ctx); vf_e1_mark(1, -1, 0);
+        parsec_context_wait(ctx); vf_e1_mark(1, -1, 0); vf_phase = 3;
     } else { fprintf(stderr, "unknown scenario %s\n", scenario); return 3; }
+    vf_phase = 3;
     for (int i = 0; i < ntp; i++) vf_prog_free(i, tps[i]);
     dump();
     hb_stop = 1; pthread_join(hb, NULL);
